@@ -51,6 +51,11 @@ func (fv *FuncVC) script(o *Obl, eng *Engine, withModel bool) string {
 		n = len(c.pre)
 	}
 	for _, l := range c.pre[:n] {
+		if o.Cover && strings.HasPrefix(l, "(assert") && strings.Contains(l, "(forall (") {
+			// vacuity (reachability) queries expect `sat`: quantified hypotheses are left out so that
+			// the solvers can build a model (a contradiction among the ground facts is still found)
+			continue
+		}
 		b.WriteString(l)
 		b.WriteByte('\n')
 	}
